@@ -26,8 +26,9 @@ impl Strat {
 
 #[derive(Clone, Debug, Serialize, Deserialize, PartialEq, Eq, Hash)]
 pub enum Req {
-    /// Add a datum with a fresh name.
-    Add { size: usize, align: usize, uninit: bool },
+    /// Add a datum; `name`: index into a small pool of names (reused when the name is free in the
+    /// current variant, e.g. after its previous holder was removed), `None` or a taken name: fresh.
+    Add { size: usize, align: usize, uninit: bool, name: Option<u8>, #[serde(default)] alt_spelling: bool },
     /// Remove one of the current data (carried over or pending), chosen by monotone index.
     Remove { sel: u16 },
     /// Close the variant.
@@ -42,12 +43,23 @@ pub struct History {
     pub final_strat: Strat,
 }
 
+pub const NAME_POOL: [&str; 6] = ["alpha", "beta", "gamma", "delta", "eps", "zeta"];
+
 pub fn pick(sel: u16, len: usize) -> usize {
     (sel as usize * len) >> 16
 }
 
 pub fn type_name_of(size: usize, align: usize) -> String {
     format!("vt::S{}A{}", size, align)
+}
+
+/// The same type spelled with different spacing (type names are free text for the builder).
+pub fn type_name_spelled(size: usize, align: usize, alt: bool) -> String {
+    if alt {
+        format!("vt :: S{}A{}", size, align)
+    } else {
+        type_name_of(size, align)
+    }
 }
 
 #[derive(Clone, Debug, Serialize, Deserialize, PartialEq, Eq)]
@@ -82,6 +94,8 @@ pub struct Trace {
     /// Number of data added and removed again before their variant was closed.
     pub removed_while_pending: usize,
     pub n_ids: usize,
+    /// Number of data named from the pool (names can then be reused by later data).
+    pub pooled_names: usize,
 }
 
 pub fn panic_message(e: Box<dyn std::any::Any + Send>) -> String {
@@ -137,7 +151,7 @@ pub fn run_native(h: &History) -> (Trace, Option<RecordDefinition<NativeDatumDet
         };
     }
 
-    let mut do_close = |b: &mut NativeRecordDefinitionBuilder<&HostTypeResolver>,
+    let do_close = |b: &mut NativeRecordDefinitionBuilder<&HostTypeResolver>,
                         trace: &mut Trace,
                         strat: Strat,
                         n_variants: &mut usize,
@@ -186,13 +200,23 @@ pub fn run_native(h: &History) -> (Trace, Option<RecordDefinition<NativeDatumDet
 
     for req in &h.reqs {
         match req {
-            Req::Add { size, align, uninit } => {
-                let name = format!("f{}", counter);
+            Req::Add { size, align, uninit, name, alt_spelling } => {
+                let pooled = name.map(|n| NAME_POOL[n as usize % NAME_POOL.len()]).filter(|n| {
+                    catch_unwind(AssertUnwindSafe(|| b.get_current_datum_definition_by_name(n).is_none()))
+                        .unwrap_or(false)
+                });
+                let name = match pooled {
+                    Some(n) => {
+                        trace.pooled_names += 1;
+                        n.to_string()
+                    }
+                    None => format!("f{}", counter),
+                };
                 counter += 1;
                 let id = guarded!(b.add_datum_override::<(), _>(
                     name,
                     DatumDefinitionOverride {
-                        type_name: Some(type_name_of(*size, *align)),
+                        type_name: Some(type_name_spelled(*size, *align, *alt_spelling)),
                         size: Some(*size),
                         align: Some(*align),
                         allow_uninit: Some(*uninit),
@@ -316,8 +340,8 @@ pub fn shape_strategy() -> impl Strategy<Value = (usize, usize)> {
 
 pub fn req_strategy(strats: BoxedStrategy<Strat>) -> impl Strategy<Value = Req> {
     prop_oneof![
-        10 => (shape_strategy(), prop::bool::weighted(0.3))
-            .prop_map(|((size, align), uninit)| Req::Add { size, align, uninit }),
+        10 => (shape_strategy(), prop::bool::weighted(0.3), prop::option::weighted(0.4, 0u8..6), prop::bool::weighted(0.25))
+            .prop_map(|((size, align), uninit, name, alt_spelling)| Req::Add { size, align, uninit, name, alt_spelling }),
         4 => any::<u16>().prop_map(|sel| Req::Remove { sel }),
         4 => strats.prop_map(|strat| Req::Close { strat }),
     ]
@@ -356,6 +380,7 @@ pub struct Classes {
     pub gap_reused: bool,
     pub distinct_aligns: usize,
     pub middle_insertion: bool,
+    pub name_reused: bool,
 }
 
 impl Classes {
@@ -399,6 +424,9 @@ impl Classes {
         }
         if self.middle_insertion {
             v.push("middle_insertion");
+        }
+        if self.name_reused {
+            v.push("name_reused");
         }
         v
     }
@@ -457,6 +485,19 @@ pub fn classify(trace: &Trace) -> Classes {
         }
         prev_end = cl.list.iter().map(|d| d.offset + d.size).max().unwrap_or(0);
         prev_ids = cl.list.iter().map(|d| d.id).collect();
+    }
+    {
+        let mut by_name: std::collections::BTreeMap<&str, usize> = std::collections::BTreeMap::new();
+        for cl in &created {
+            for d in &cl.list {
+                match by_name.get(d.name.as_str()) {
+                    Some(&id) if id != d.id => c.name_reused = true,
+                    _ => {
+                        by_name.insert(d.name.as_str(), d.id);
+                    }
+                }
+            }
+        }
     }
     c.mixed_strategies = strategies.len() >= 2;
     c.distinct_aligns = aligns.len();
